@@ -137,12 +137,7 @@ theorem law_cmpInt : Law cmpInt where
         · simp [h, h'] at h1
     rw [hab]
 
-/-- NULL and "no such cell" as one thing -/
-def Cell.norm : Cell → Option Int
-  | .val v => some v
-  | _ => none
-
-/-- `compare_values_with_nulls` on normalised keys: the order ORDER BY means -/
+/-- `compare_values_with_nulls` on the filtered keys (`Cell.filterNull`): the order ORDER BY means -/
 def cmpKey (a b : Option Int) (nf : Bool) : Ordering :=
   match a, b with
   | none, none => .eq
@@ -160,59 +155,56 @@ theorem law_cmpKey (nf : Bool) : Law (fun a b => cmpKey a b nf) where
     cases a <;> cases b <;> cases c <;> cases nf <;> simp [cmpKey] at h1 ⊢
     all_goals exact law_cmpInt.eqCongr _ _ _ h1
 
-/-- the pairs on which the code's comparison is NOT the comparison of the normalised keys -/
+/-- the code's comparison IS the comparison of the filtered keys, for every pair of cells -/
+theorem cmpNulls_eq_cmpKey (a b : Cell) (nf : Bool) :
+    cmpNulls a b nf = cmpKey a.filterNull b.filterNull nf := by
+  unfold cmpNulls cmpKey; rfl
+
+theorem cmpItem_eq (it : OrderItem) :
+    cmpItem it = (if it.desc
+      then (fun a b => (cmpKey (a.get it.col).filterNull (b.get it.col).filterNull (it.nulls.getD false)).swap)
+      else (fun a b => cmpKey (a.get it.col).filterNull (b.get it.col).filterNull (it.nulls.getD false))) := by
+  funext a b
+  unfold cmpItem
+  rw [cmpNulls_eq_cmpKey]
+  cases it.desc <;> rfl
+
+theorem law_cmpItem (it : OrderItem) : Law (cmpItem it) := by
+  rw [cmpItem_eq]
+  have base := (law_cmpKey (it.nulls.getD false)).comap (fun r : Row => (r.get it.col).filterNull)
+  cases it.desc
+  · exact base
+  · exact base.swapped
+
+theorem cmpRows_cons (it : OrderItem) (its : List OrderItem) :
+    cmpRows (it :: its) = Law.lexCmp (cmpItem it) (cmpRows its) := by
+  funext a b
+  rw [cmpRows]
+  unfold Law.lexCmp
+  cases cmpItem it a b <;> rfl
+
+/-- the closure `sort_rows` hands to `sort_by` is the comparator of a total preorder — on ALL rows -/
+theorem law_cmpRows (order : List OrderItem) : Law (cmpRows order) := by
+  induction order with
+  | nil =>
+    have : cmpRows [] = (fun _ _ => Ordering.eq) := by funext a b; rfl
+    rw [this]; exact Law.const
+  | cons it its ih =>
+    rw [cmpRows_cons]
+    exact Law.lex (law_cmpItem it) ih
+
+/-! ### the pre-repair comparator: equal to the code's wherever it was an order -/
+
+/-- the pairs on which the pre-repair comparison was NOT the comparison of the filtered keys -/
 def Cell.clash (a b : Cell) : Bool :=
   match a, b with
   | .absent, .null => true
   | .null, .absent => true
   | _, _ => false
 
-theorem cmpNulls_eq_cmpKey (a b : Cell) (nf : Bool) (h : a.clash b = false) :
-    cmpNulls a b nf = cmpKey a.norm b.norm nf := by
+theorem cmpNullsOld_eq_cmpNulls (a b : Cell) (nf : Bool) (h : a.clash b = false) :
+    cmpNullsOld a b nf = cmpNulls a b nf := by
   cases a <;> cases b <;> simp [Cell.clash] at h <;> rfl
-
-/-- the comparator of one item / of the item list on normalised keys -/
-def cmpItemN (it : OrderItem) (a b : Row) : Ordering :=
-  let c := cmpKey (a.get it.col).norm (b.get it.col).norm (it.nulls.getD false)
-  if it.desc then c.swap else c
-
-def cmpRowsN : List OrderItem → Row → Row → Ordering
-  | [], _, _ => .eq
-  | it :: its, a, b =>
-    match cmpItemN it a b with
-    | .eq => cmpRowsN its a b
-    | c => c
-
-theorem cmpItemN_eq (it : OrderItem) :
-    cmpItemN it = (if it.desc
-      then (fun a b => (cmpKey (a.get it.col).norm (b.get it.col).norm (it.nulls.getD false)).swap)
-      else (fun a b => cmpKey (a.get it.col).norm (b.get it.col).norm (it.nulls.getD false))) := by
-  funext a b
-  unfold cmpItemN
-  cases it.desc <;> rfl
-
-theorem law_cmpItemN (it : OrderItem) : Law (cmpItemN it) := by
-  rw [cmpItemN_eq]
-  have base := (law_cmpKey (it.nulls.getD false)).comap (fun r : Row => (r.get it.col).norm)
-  cases it.desc
-  · exact base
-  · exact base.swapped
-
-theorem cmpRowsN_cons (it : OrderItem) (its : List OrderItem) :
-    cmpRowsN (it :: its) = Law.lexCmp (cmpItemN it) (cmpRowsN its) := by
-  funext a b
-  rw [cmpRowsN]
-  unfold Law.lexCmp
-  cases cmpItemN it a b <;> rfl
-
-theorem law_cmpRowsN (order : List OrderItem) : Law (cmpRowsN order) := by
-  induction order with
-  | nil =>
-    have : cmpRowsN [] = (fun _ _ => Ordering.eq) := by funext a b; rfl
-    rw [this]; exact Law.const
-  | cons it its ih =>
-    rw [cmpRowsN_cons]
-    exact Law.lex (law_cmpItemN it) ih
 
 theorem no_clash_of_not_mixed (rows : List Row) (c : Nat) (h : mixedCol rows c = false) (a b : Row)
     (ha : a ∈ rows) (hb : b ∈ rows) : (a.get c).clash (b.get c) = false := by
@@ -228,19 +220,18 @@ theorem no_clash_of_not_mixed (rows : List Row) (c : Nat) (h : mixedCol rows c =
       · exact ⟨⟨b, hb, by simp [hbc]⟩, ⟨a, ha, by simp [hac]⟩⟩
     rw [h] at hm; cases hm
 
-theorem cmpRows_eq_cmpRowsN (order : List OrderItem) (rows : List Row) (h : consistent order rows = true)
-    (a b : Row) (ha : a ∈ rows) (hb : b ∈ rows) : cmpRows order a b = cmpRowsN order a b := by
+theorem cmpRowsOld_eq_cmpRows (order : List OrderItem) (rows : List Row) (h : consistent order rows = true)
+    (a b : Row) (ha : a ∈ rows) (hb : b ∈ rows) : cmpRowsOld order a b = cmpRows order a b := by
   induction order with
   | nil => rfl
   | cons it its ih =>
     unfold consistent at h
     rw [List.all_cons, Bool.and_eq_true] at h
     have hit : mixedCol rows it.col = false := by simpa using h.1
-    have e : cmpItem it a b = cmpItemN it a b := by
-      unfold cmpItem cmpItemN
-      rw [cmpNulls_eq_cmpKey _ _ _ (no_clash_of_not_mixed rows it.col hit a b ha hb)]
-    rw [cmpRows, cmpRowsN, e, ih h.2]
-    cases cmpItemN it a b <;> rfl
+    have e : cmpItemOld it a b = cmpItem it a b := by
+      unfold cmpItemOld cmpItem
+      rw [cmpNullsOld_eq_cmpNulls _ _ _ (no_clash_of_not_mixed rows it.col hit a b ha hb)]
+    rw [cmpRowsOld, cmpRows, e, ih h.2]
 
 /-! ### the stable sort -/
 
@@ -409,8 +400,8 @@ theorem ordered_eq_sortRows (s : Sel) (base : List Row) : ordered s base = sortR
     exact (sortBy_all_eq (cmpRows []) (fun _ _ => rfl) base).symm
   | cons it its => simp
 
-theorem sortRows_eq_sortBy_cmpRowsN (order : List OrderItem) (rows : List Row) (h : consistent order rows = true) :
-    sortRows order rows = sortBy (cmpRowsN order) rows :=
-  sortBy_congr _ _ rows (fun a ha b hb => cmpRows_eq_cmpRowsN order rows h a b ha hb)
+theorem sortRowsOld_eq_sortRows (order : List OrderItem) (rows : List Row) (h : consistent order rows = true) :
+    sortRowsOld order rows = sortRows order rows :=
+  sortBy_congr _ _ rows (fun a ha b hb => cmpRowsOld_eq_cmpRows order rows h a b ha hb)
 
 end Neumann.Parse.Exec
